@@ -230,18 +230,25 @@ Lemma fft_length (s : st) v n : length (snd (fft ops tw s v n)) = fft_size (leng
 Proof. rewrite fft_is_fft_into_zero, fft_into_adds, zip_acc_length, repeat_length. reflexivity. Qed.
 
 (** fft_inv_into adds what fft_inv returns (sizes: a power of two, as the code asserts) *)
+Lemma fft_inv_body_adds (s : st) (v : list C) res k : length v = 2 ^ S k ->
+  snd (fft_inv_body ops tw s v res) = zip_acc Z.add res (snd (fft_inv_body ops tw s v (repeat 0%Z (length v)))).
+Proof.
+  intros Hv. unfold fft_inv_body.
+  destruct (fft_internal ops tw s _ true) as [s1 buf] eqn:E. cbn [snd]. f_equal.
+  assert (Hb : length buf = length v / 2).
+  { change buf with (snd (s1, buf)). rewrite <- E, fft_internal_length. apply map_seq_length. }
+  replace (length v) with (length (round_pairs ops buf)); [symmetry; apply zip_acc_zero|].
+  rewrite round_pairs_length, Hb, Hv.
+  rewrite Nat.pow_succ_r', (Nat.mul_comm 2 (2 ^ k)), Nat.div_mul by lia. lia.
+Qed.
+
 Lemma fft_inv_into_adds (s : st) (v : list C) res k : length v = 2 ^ k ->
   snd (fft_inv_into ops tw s v res) = zip_acc Z.add res (snd (fft_inv ops tw s v)).
 Proof.
   intros Hv. unfold fft_inv, fft_inv_into. destruct (length v =? 1) eqn:E1.
-  - apply Nat.eqb_eq in E1. rewrite E1. cbn [repeat snd]. destruct res as [|x t]; [reflexivity|].
+  - apply Nat.eqb_eq in E1. rewrite E1. cbn [repeat snd fft_inv_one]. destruct res as [|x t]; [reflexivity|].
     cbn [zip_acc]. now rewrite zip_acc_nil, Z.add_0_l.
-  - destruct (fft_internal ops tw s _ true) as [s1 buf] eqn:E. cbn [snd]. f_equal.
-    assert (Hb : length buf = length v / 2).
-    { change buf with (snd (s1, buf)). rewrite <- E, fft_internal_length. apply map_seq_length. }
-    replace (length v) with (length (round_pairs ops buf)); [symmetry; apply zip_acc_zero|].
-    rewrite round_pairs_length, Hb, Hv. destruct k as [|k]; [rewrite Hv in E1; discriminate|].
-    rewrite Nat.pow_succ_r', (Nat.mul_comm 2 (2 ^ k)), Nat.div_mul by lia. lia.
+  - destruct k as [|k]; [rewrite Hv in E1; discriminate|]. now apply (fft_inv_body_adds _ v res k).
 Qed.
 End Shape.
 
